@@ -106,6 +106,24 @@ pub fn programs() -> Vec<(&'static str, String, Vec<Emit>, bool)> {
         false,
     ));
     v.push((
+        "channel-handle-over-channel-producer-finished",
+        format!("let requests: channel<channel<int>> = channel()\ntask {{\n  let reply: channel<int> = channel()\n  reply.write(7)\n  reply.write(8)\n  requests.write(reply)\n}}\n{}let r = requests.read()\nr.write(99)\nvh_emit_int(r.read())\nvh_emit_int(r.read())\nvh_emit_int(r.read())\n", spin(8)),
+        ints(&[7, 8, 99]),
+        false,
+    ));
+    v.push((
+        "channel-handle-inside-struct-over-channel",
+        format!("type Req = {{\n  id: int\n  reply: channel<array<int>>\n}}\nlet requests: channel<Req> = channel()\ntask {{\n  let reply: channel<array<int>> = channel()\n  reply.write([5])\n  requests.write(Req(1, reply))\n}}\n{}let q = requests.read()\nq.reply.write([6])\nlet a = q.reply.read()\nlet b = q.reply.read()\nvh_emit_int(q.id)\nvh_emit_int(a[0])\nvh_emit_int(b[0])\n", spin(8)),
+        ints(&[1, 5, 6]),
+        false,
+    ));
+    v.push((
+        "channel-handle-over-channel-request-reply",
+        "let requests: channel<channel<int>> = channel()\ntask {\n  let r = requests.read()\n  r.write(41)\n  r.write(42)\n}\nlet mine: channel<int> = channel()\nrequests.write(mine)\nvh_emit_int(mine.read())\nvh_emit_int(mine.read())\n".into(),
+        ints(&[41, 42]),
+        false,
+    ));
+    v.push((
         "unread-values-at-exit",
         "let c: channel<array<int>> = channel()\ntask {\n  c.write([1])\n  c.write([2])\n}\nlet r = c.read()\nvh_emit_int(r[0])\n".into(),
         ints(&[1]),
@@ -190,6 +208,42 @@ impl Prop for C09 {
                 json!({"program": text, "observed": format!("{:?}", reference), "expected": format!("{expected:?}"), "merge_rule": merge}),
             );
             return;
+        }
+        // the same program on the unmodified runtime (real frees, real collector pacing): the product
+        // search below runs in quarantine mode, which keeps reclaimed objects (and whatever they own)
+        // alive, so ownership bugs that only show when memory is really released are caught here
+        {
+            let ep = match crate::embed::compile_eprog(name, &text, vec![], vec![]) {
+                Ok(e) => e,
+                Err(e) => {
+                    out.violation(vec![format!("input:{}", hkey(&format!("{name}|compile2")))], format!("{name}: {e}"), json!({"program": text}));
+                    return;
+                }
+            };
+            let mut bad: Option<(String, String)> = None;
+            let mut check = |sched: String, x: &crate::embed::Execution| {
+                let o = Outcome { end: Some(x.obs.end.clone()), emits: x.obs.emits.clone(), out: x.obs.out.clone() };
+                if !model_ok(&o) && bad.is_none() {
+                    bad = Some((sched, format!("end={} emits={:?}", x.obs.end.class(), x.obs.emits)));
+                }
+            };
+            for b in [1u32, 2, 3, 7, 64, 1000] {
+                let x = crate::embed::execute_uniform(&ep, b, 100_000);
+                check(format!("uniform budget {b}"), &x);
+                out.traces += 1;
+            }
+            let (count, _) = crate::embed::explore(&ep, 1, 100_000, tier.pick(3_000, 50_000), &mut |x| check(crate::embed::fmt_choices(x), x));
+            out.traces += count;
+            out.count("real_mode_executions", count as i64 + 6);
+            if let Some((sched, obs)) = bad {
+                out.class("violation");
+                out.violation(
+                    vec![format!("input:{}", hkey(&format!("{name}|real|{sched}"))), format!("prog:{name}")],
+                    format!("{name}: on the unmodified runtime under [{sched}]: {obs}; channel model expects {:?}", expected),
+                    json!({"program": text, "schedule": sched, "observed": obs, "expected": format!("{expected:?}")}),
+                );
+                return;
+            }
         }
         let cycles = tier.pick(1, 2);
         let cap = tier.pick(300_000, 3_000_000);
